@@ -45,6 +45,7 @@ def setup(ctx):
     ctx.require("monitor", "tampered_cert_calls", 20)
     ctx.require("monitor", "concurrent_first_contacts", 12)
     ctx.require("monitor", "lookalike_host_histories", 4)
+    ctx.require("monitor", "store_faults_fired", 6)
     ctx.require("monitor", "table_comparisons", 400)
     ctx.require("monitor", "l0_steps", 2000)
     ctx.require("monitor", "redirect_hops_checked", 20)
@@ -593,8 +594,82 @@ def run_concurrent_first_contact(ctx):
         peer.ident_for_connection = None
 
 
+def run_store_faults(ctx):
+    """First contact while the pin store misbehaves (the n-th SQL statement of the call fails as a locked store
+    does): whatever happens, a call that returned a response has left the pin behind - so a different
+    certificate on the next connection is refused - and a call that could not pin did not return a response."""
+    from checks.c11 import DbFault
+    from nauyaca.client.session import GeminiClient
+    from nauyaca.security.tofu import CertificateChangedError
+
+    P = pool()
+
+    def behaviour(conn):
+        line = conn.read_line(timeout=5)
+        if line is None:
+            conn.close()
+            return
+        if line.startswith(b"titan://"):
+            conn.drain(timeout=0.3)
+        conn.send(b"20 text/gemini\r\nhello\n")
+        conn.close()
+
+    with peers.ScriptedPeer(P["ec1"], behaviour, name="faulty-store") as peer:
+        for entry in ("get", "upload", "delete"):
+            for n in range(1, 8):
+                tmp = tempfile.mkdtemp(prefix="vf-c03f-")
+                dbp = os.path.join(tmp, "tofu.db")
+                peer.swap_cert(P["ec1"])
+                url = f"gemini://127.0.0.1:{peer.port}/x"
+
+                async def call(client):
+                    if entry == "upload":
+                        return await client.upload(url, b"payload", mime_type="text/plain")
+                    if entry == "delete":
+                        return await client.delete(url)
+                    return await client.get(url)
+
+                def run_call(client):
+                    try:
+                        r = asyncio.run(call(client))
+                        return ("response", r.status)
+                    except CertificateChangedError:
+                        return ("changed",)
+                    except BaseException as e:  # noqa: BLE001
+                        return ("error", type(e).__name__, str(e)[:80])
+
+                try:
+                    client = GeminiClient(timeout=8, trust_on_first_use=True, tofu_db_path=Path(dbp))
+                    with DbFault(n) as fault:
+                        first = run_call(client)
+                    rows = dump(dbp)
+                    peer.swap_cert(P["ec2"])
+                    second = run_call(GeminiClient(timeout=8, trust_on_first_use=True, tofu_db_path=Path(dbp)))
+                    rows2 = dump(dbp)
+                finally:
+                    shutil.rmtree(tmp, ignore_errors=True)
+                peer.wait_idle(3)
+                ctx.count("monitor", "store_fault_first_contacts")
+                if fault.fired:
+                    ctx.count("monitor", "store_faults_fired")
+                wit = {"level": "store-fault", "entry": entry, "failing_statement": n, "fault_fired": fault.fired, "first_contact": list(first), "pins_after_first": [(r[0], r[1], r[2][:23]) for r in rows],
+                       "second_contact_other_certificate": list(second), "pins_after_second": [(r[0], r[1], r[2][:23]) for r in rows2]}
+                pinned = [r for r in rows if r[2] == P["ec1"].fingerprint]
+                if first[0] == "response" and not pinned:
+                    ctx.violation(f"first-use-not-pinned:store-fault:entry={entry}", "the first contact returned a response although the presented certificate could not be pinned", wit)
+                elif first[0] == "response" and second[0] == "response":
+                    ctx.violation(f"accepted-changed:after-store-fault:entry={entry}", "after a first contact under a store fault, a different certificate was accepted", wit)
+                elif pinned and second[0] != "changed":
+                    ctx.violation(f"wrong-error:after-store-fault:entry={entry}", f"host is pinned, another certificate was presented, outcome {second[:2]}", wit)
+                else:
+                    ctx.count("outcome", f"store-fault:{'pinned' if pinned else 'failed-closed'}")
+                ctx.case(("store-fault", entry, n, fault.fired, first[0], second[0]), True, sample=wit)
+
+
 def run(ctx):
     run_l0(ctx)
     run_l3(ctx)
     if ctx.shard == 1 or ctx.nshards == 1:
         run_concurrent_first_contact(ctx)
+    if ctx.shard == 2 or ctx.nshards == 1:
+        run_store_faults(ctx)
